@@ -78,6 +78,33 @@ CLAIMED.update({
     ),
 })
 
+CLAIMED.update({
+    'C09': (
+        'z3 integer queries generated from base58_encodings (prefix/length lemma per row, all payloads) + proxy symbolic execution (bvx) of base58_encode/base58_decode behind a Base58Check boundary stub',
+        'Bounded symbolic model checking: for every table row the solver decides over ALL payloads (and a free checksum) that the text has the '
+        'documented prefix and length; the real lookup code is executed on fully symbolic payload / decoded bytes to decide the round trip, '
+        'wrong-length / unknown-prefix rejection and rejection of foreign binary prefixes; pairwise unambiguity is decided at table level.',
+        'Positional arithmetic model of the base58 package (validated on vectors and on every model); checksum rejection is the package contract.',
+        'DESIGN.md C09',
+    ),
+    'C10': (
+        'proxy symbolic execution (bvx/z3) of the forge/unforge helpers and domain types with fully symbolic payloads behind a Base58Check boundary stub',
+        'Bounded symbolic model checking: for each kind of address, key hash, key, signature and chain id the whole payload is symbolic; the value '
+        'goes through the real to_micheline_value(optimized|legacy_optimized) and from_micheline_value; kind, payload bytes and entrypoint must '
+        'survive; sequences of kinds with identical payloads; blind_unpack of the 22-byte form.',
+        'Base58Check boundary stub (prefix/length facts are C09 lemmas); entrypoint names from a fixed list; typed signatures may come back as generic sig.',
+        'DESIGN.md C10',
+    ),
+    'C14': (
+        'proxy symbolic execution (bvx/z3) of the set/map types and UPDATE/GET/GET_AND_UPDATE/MEM/SIZE/ITER/MAP from an arbitrary valid pre-state (inductive step)',
+        'Bounded symbolic model checking, one inductive step: the pre-state is an arbitrary collection (<= 3/4 entries, symbolic keys and values) '
+        'satisfying the representation invariant, one operation with symbolic arguments runs on the real code, and sortedness, duplicate '
+        'freedom and agreement with a dictionary model are discharged on every path; literals accepted iff strictly increasing.',
+        'Invariant = strictly increasing keys in the reference order of C03; counterexamples are replayed by rebuilding the pre-state with real UPDATE instructions.',
+        'DESIGN.md C14',
+    ),
+})
+
 NOT_APPLICABLE = {
     'C18': 'Parser is a PLY regex lexer + LALR tables + json; every input is concrete before the code under test runs, '
            'so a solver has nothing to decide (CrossHair regex model also unsound here). See DESIGN.md section 6.',
